@@ -1035,6 +1035,13 @@ def _decorate_with_invariants(func: CallableT, is_init: bool) -> CallableT:
                 _IN_PROGRESS.set(in_progress)
 
             id_instance = id(instance)
+            if id_instance in in_progress:
+                # This constructor has been called from another constructor (e.g., ``super().__init__(...)``) or
+                # from another method of the same instance. The invariants must not be checked at this point as
+                # the instance might be only partially constructed; the outer-most call will check them.
+                # We must also not re-enable the checks for the instance on leaving this call.
+                return func(*args, **kwargs)
+
             in_progress.add(id_instance)
 
             # ExitStack is not used here due to performance.
